@@ -152,6 +152,38 @@ def transform_cache_case(nth):
         lib.rmtree(work)
 
 
+def transform_signal_case(sig, cache):
+    """--transform whose program dies from a signal (what an I/O error on a memory-mapped input does) after writing the readable
+    part of one input: that input must be left out with a warning, never grouped with a file equal to its readable part."""
+    work = lib.mkscratch("c15s")
+    try:
+        base = os.path.join(work, "b")
+        big = gg.base_bytes(22, 300000)[:300000]
+        lib.write_file(os.path.join(base, "t/whole1"), big)
+        lib.write_file(os.path.join(base, "t/whole2"), big)
+        lib.write_file(os.path.join(base, "t/broken"), big[:100000] + b"unreadable tail" * 1000)
+        lib.write_file(os.path.join(base, "t/prefix"), big[:100000])            # equals what the program manages to write for `broken`
+        bind = os.path.join(work, "bin")
+        os.makedirs(bind)
+        with open(os.path.join(bind, "vt_sig"), "w") as f:
+            f.write('#!/bin/sh\ncase "$1" in\n  */broken) head -c 100000 "$1"; kill -%s $$; sleep 5;;\n  *) exec cat "$1";;\nesac\n' % sig)
+        os.chmod(os.path.join(bind, "vt_sig"), 0o755)
+        env = lib.base_env(work, disk_kind="ssd")
+        env["PATH"] = bind + ":" + env["PATH"]
+        args = ["group", "b", "--threads", "1", "--transform", "vt_sig $IN", "--no-copy", "--rf-over", "1"] + (["--cache"] if cache else [])
+        outs = [lib.run_fclones(args, work, env, timeout=60) for _ in range(2 if cache else 1)]
+        os.remove(os.path.join(base, "t/broken"))
+        ref = lib.run_fclones([a for a in args if a != "--cache"], work, env, timeout=60)
+        shape = lambda out: [(g["len"], g["paths"]) for g in gg.parse_text_report(out)[1]]
+        last = outs[-1]
+        return {"faults": [("transform-killed", "t/broken", 1, "SIG" + sig)], "disk": "ssd", "extra": args[5:], "rc": last.rc,
+                "stderr": last.err.decode("utf-8", "replace")[-700:], "injected": 1, "timeout": last.timed_out, "panicked": last.panicked,
+                "warned": any(b"warn" in o.err.lower() for o in outs), "removed": ["t/broken"],
+                "body_equal": all(shape(o.out) == shape(ref.out) for o in outs), "diff": c13.diff(c13.body(ref.out), c13.body(last.out)), "ref_rc": ref.rc}
+    finally:
+        lib.rmtree(work)
+
+
 def main(tier):
     chk = lib.Check("C15", tier)
     thorough = tier == "thorough"
@@ -191,6 +223,7 @@ def main(tier):
     lib.log(f"[C15] {len(cases)} faulted runs")
     results = lib.pmap(one, cases, workers=12)
     results += [transform_cache_case(n) for n in (1, 2, 3)]
+    results += [transform_signal_case(sg, c) for sg, c in (("KILL", False), ("BUS", False), ("SEGV", True))]
     done = [r for r in results if "skip" not in r]
     nontrivial = set()
     for r in done:
